@@ -679,6 +679,10 @@ where
     let mut rng = Rng::new(cs);
     let thorough = ctx.tier == Tier::Thorough;
     out.eval();
+    if D == 2 && cs % 6 == 0 {
+        let mut prng = Rng::derive(cs, 0x9147, 10);
+        return pinwheel_case::<K, D>(ctx, out, cs, kn, &mut prng);
+    }
     let strip = thorough && D == 2 && rng.chance(1, 5);
     let (fam_name, pts): (&str, Vec<[f64; D]>) = if strip {
         let n = 300 + rng.usize(1701);
@@ -830,6 +834,24 @@ where
                     let mut q3 = gen_queries(&mut rng, &geo3, 1, out);
                     rng.shuffle(&mut q3);
                     q3.truncate(if thorough { 50 } else { 30 });
+                    // The scan fallback is only consulted when the walk cycles, which depends on the start
+                    // cell; a scan that wrongly rejects cells shows on queries lying on faces of the cells
+                    // that contain them. So here every mesh vertex is a query too, from every hint.
+                    if geo3.cells.len() <= 120 {
+                        let mut seen: HashSet<[u64; D]> = HashSet::new();
+                        for c in &geo3.cells {
+                            for p in c.pts.iter() {
+                                let mut kb = [0u64; D];
+                                for j in 0..D {
+                                    kb[j] = p[j].to_bits();
+                                }
+                                if seen.insert(kb) {
+                                    q3.push(Query { q: *p, class: "vertex" });
+                                }
+                            }
+                        }
+                        out.add("aux/flipped_all_vertex_queries", seen.len() as u64);
+                    }
                     let mut b3 = base.clone();
                     b3["flips"] = json!(log);
                     out.count("tri/flipped_judged");
@@ -844,6 +866,151 @@ where
         out.sample(json!({"D": D, "kernel": kn.name(), "family": fam_name, "n": inp.len(), "cells": geo.cells.len(), "queries": queries.len(), "hints": hints.len(),
             "hint_classes": hints.iter().map(|h| h.class).collect::<HashSet<_>>().into_iter().collect::<Vec<_>>(), "aux_op": aux_op.kind(), "removed_keys": removed_in_d2.len()}));
     }
+}
+
+// ---------------------------------------------------------------------------------------------
+// pinwheel: a valid, non-Delaunay 2D triangulation on which the visibility walk cycles
+// ---------------------------------------------------------------------------------------------
+
+/// Random legal flips practically never make the deterministic facet walk cycle, so the scan
+/// fallback of `locate` would stay unobserved. The classical counterexample is the pinwheel: an
+/// inner triangle a,b,c around a centre m inside an outer triangle A,B,C, with the "blade" edges
+/// A-b, B-c, C-a instead of the Delaunay ones. It is reached from the constructed triangulation by
+/// a breadth-first search over `flip_k2` edits that keep the complex exactly valid, and is placed
+/// by a random dyadic similarity (scale 2^k, axis swap / mirror, integer translation).
+fn pinwheel_case<K, const D: usize>(ctx: &Ctx, out: &mut Out, cs: u64, kn: Kn, rng: &mut Rng)
+where
+    K: Kernel<D, Scalar = f64>,
+{
+    let base_pts: [(f64, f64); 7] = [(-4.0, 6.0), (-2.0, -6.0), (6.0, 2.0), (2.0, 0.0), (-1.0, 2.0), (-1.0, -2.0), (0.0, 0.0)];
+    let target: HashSet<(usize, usize)> = [(0, 1), (1, 2), (0, 2), (0, 3), (1, 4), (2, 5), (0, 4), (1, 5), (2, 3), (3, 4), (4, 5), (3, 5), (3, 6), (4, 6), (5, 6)].into_iter().collect();
+    let sc = 2f64.powi(rng.range_i64(-3, 6) as i32);
+    let (swap, nx, ny) = (rng.bool(), rng.bool(), rng.bool());
+    let (tx, ty) = (rng.range_i64(-64, 64) as f64 * sc, rng.range_i64(-64, 64) as f64 * sc);
+    let mut pts: Vec<[f64; D]> = Vec::new();
+    for (x, y) in base_pts {
+        let (mut x, mut y) = if swap { (y, x) } else { (x, y) };
+        if nx {
+            x = -x;
+        }
+        if ny {
+            y = -y;
+        }
+        let mut p = [0.0; D];
+        p[0] = x * sc + tx;
+        p[1] = y * sc + ty;
+        pts.push(p);
+    }
+    let inp = tri::mk_inputs(rng, &pts);
+    let gu = *rng.pick(&GUARANTEES);
+    let base = json!({"property": P, "case_seed": cs.to_string(), "D": D, "kernel": kn.name(), "family": "pinwheel", "guarantee": format!("{:?}", gu), "points": pts_json(&pts)});
+    let dt0 = match tri::build::<K, D>(&K::default(), &inp, gu, &Opts::default_like()) {
+        Ok(Ok(dt)) => dt,
+        Ok(Err(_)) => {
+            out.count("pinwheel/construction_err");
+            return;
+        }
+        Err(pi) => {
+            out.panic(P, &pi, "construction", base);
+            return;
+        }
+    };
+    let index_of: HashMap<uuid::Uuid, usize> = inp.iter().enumerate().map(|(i, v)| (v.uuid, i)).collect();
+    let edges_of = |m: &RefModel<D>| -> Option<(HashSet<(usize, usize)>, Vec<Vec<usize>>)> {
+        let mut es = HashSet::new();
+        let mut cells = Vec::new();
+        for c in &m.cells {
+            let mut ids = Vec::new();
+            for vk in &c.v {
+                ids.push(*index_of.get(&m.vertex(*vk)?.uuid)?);
+            }
+            ids.sort_unstable();
+            for i in 0..ids.len() {
+                for j in i + 1..ids.len() {
+                    es.insert((ids[i], ids[j]));
+                }
+            }
+            cells.push(ids);
+        }
+        cells.sort();
+        Some((es, cells))
+    };
+    let m0 = RefModel::from_dt(&dt0);
+    if m0.verts.len() != 7 || !super::c04::geometrically_valid(&m0, gu) {
+        out.count("pinwheel/start_not_usable");
+        return;
+    }
+    let stale: Vec<CellKey> = m0.cells.iter().map(|c| c.key).collect();
+    let mut seen: HashSet<Vec<Vec<usize>>> = HashSet::new();
+    let mut queue: std::collections::VecDeque<(Dt<K, D>, Vec<Value>)> = std::collections::VecDeque::new();
+    if let Some((_, sig)) = edges_of(&m0) {
+        seen.insert(sig);
+    }
+    queue.push_back((dt0, Vec::new()));
+    let mut found: Option<(Dt<K, D>, Vec<Value>)> = None;
+    let mut expanded = 0;
+    while let Some((dt, log)) = queue.pop_front() {
+        let m = RefModel::from_dt(&dt);
+        let Some((es, _)) = edges_of(&m) else { break };
+        if es == target {
+            found = Some((dt, log));
+            break;
+        }
+        expanded += 1;
+        if expanded > 300 {
+            break;
+        }
+        for c in &m.cells {
+            for idx in 0..=(D as u8) {
+                let mut next = dt.clone();
+                let op = Op::FlipK2 { cell: c.key, idx, how: "pinwheel-search" };
+                if let Ok(Res::Flip(_)) = hist::apply(&mut next, &op) {
+                    let mn = RefModel::from_dt(&next);
+                    if !super::c04::geometrically_valid(&mn, gu) {
+                        continue;
+                    }
+                    if let Some((_, sig)) = edges_of(&mn) {
+                        if seen.insert(sig) {
+                            let mut l = log.clone();
+                            l.push(op.to_json());
+                            queue.push_back((next, l));
+                        }
+                    }
+                }
+            }
+        }
+    }
+    let Some((dt, log)) = found else {
+        out.count("pinwheel/not_reached");
+        return;
+    };
+    out.count("pinwheel/built");
+    out.count(&format!("D{}/pinwheel", D));
+    let m = RefModel::from_dt(&dt);
+    let Some(geo) = Geo::from_model(&m) else {
+        out.count("pinwheel/geo_unusable");
+        return;
+    };
+    out.nontrivial(&cs.to_string());
+    let mut extra: Vec<(CellKey, &'static str, &'static str)> = Vec::new();
+    for k in stale.iter().filter(|k| !m.cidx.contains_key(k)).take(6) {
+        extra.push((*k, "removed-cell-key", "removed-cell-key(slot-reused)"));
+    }
+    let hints = mk_hints(rng, &geo, &extra, 40);
+    let mut queries = gen_queries(rng, &geo, 2, out);
+    // every vertex, every edge midpoint
+    for (i, p) in pts.iter().enumerate() {
+        queries.push(Query { q: *p, class: "vertex" });
+        for q in pts.iter().skip(i + 1) {
+            let (mid, ex) = combo(&[*p, *q], &[1, 1], 1);
+            if ex {
+                queries.push(Query { q: mid, class: "edge-midpoint" });
+            }
+        }
+    }
+    let mut b = base.clone();
+    b["flips"] = json!(log);
+    run_queries(ctx, out, &dt, &m, &geo, &queries, &hints, &b, "pinwheel");
 }
 
 pub fn run_case(ctx: &Ctx, out: &mut Out, cs: u64, d: usize, kn: Kn) {
